@@ -42,6 +42,14 @@ chk("C10", "exploration",
     "exhaustive enumeration of body kind x chain shape x status x proxy configuration; every hop parsed back by an independent parser", "E3",
     "Every body kind x POST/PUT x proxy/no-proxy x every chain of 1..2/3 hops over six hop changes x status patterns; each hop must be one well-formed request aimed at that hop's URL (proxy choice re-evaluated), carry the caller's headers, and for 307/308 the same method and body.",
     "Known finding: multipart bodies are not replayed (listed in known_findings.json). http->https hops are covered by the TLS lab.")
+chk("C11", "exploration",
+    "exhaustive enumeration of hosts x no-proxy lists x schemes x proxy configurations through the public API and send(), and of all assignments of the eight proxy environment variables in single-threaded worker processes", "E2",
+    "All 1..3-label host names over a 4-label alphabet (so that equal / subdomain / near-miss suffix relations all occur) plus IP literals against all no-proxy lists up to length 2, through ProxySettings::for_url and end-to-end through send() (address dialled); every assignment of the 8 environment variables over 7 value kinds x no_proxy menus through ProxySettings::from_env in subprocesses.",
+    "Trusted: the curl-convention reference in harness/src/c11.rs and refs::ref_no_proxy; allowed-outcome sets where the property text leaves precedence open (listed in the evidence assumptions).")
+chk("C14", "exploration",
+    "exhaustive enumeration of the full certificate x name x flags x root x route x scope x host x backend matrix as real TLS handshakes against local listeners", "E5",
+    "Every cell of the matrix the property names is one real exchange against the local TLS lab (native-tls acceptors, committed test PKI, resolver hook for names), for both TLS backends (two builds); the only-if direction is enforced on every cell, the converse as non-vacuity half.",
+    "Trusted: OpenSSL / webpki path validation; committed certificates valid 1970..2120; system clock between 2002 and 2118; empty system trust store (SSL_CERT_FILE) so only explicitly added roots count.")
 chk("C15", "exploration",
     "exhaustive enumeration of multipart forms (shapes x hostile data menus x every buffer residue) decoded by two independent multipart decoders", "E2",
     "Forms with 0..3 texts x 0..3 files over hostile data menus, and a lead-in sweep over all 8192 residues of the 8 KiB copy buffer, are sent under three write policies; the de-chunked body must decode (own RFC 2046/7578 decoder and the multer crate) to exactly the parts added.",
@@ -71,7 +79,7 @@ for pid in all_ids:
     })
 m = {
     "version": 1,
-    "setup_cmd": "cd /verif/harness && CARGO_NET_OFFLINE=true cargo build --release --offline",
+    "setup_cmd": "cd /verif/harness && CARGO_NET_OFFLINE=true cargo build --release --offline && cd /verif/harness-rustls && CARGO_NET_OFFLINE=true cargo build --release --offline",
     "hooks": {
         "guard": "cargo feature verif-hooks (attohttpc)",
         "enable": "the harness crate /verif/harness depends on attohttpc by path (/repo) with features = [\"verif-hooks\", ...]; ./check rebuilds it from /repo's working tree on every run",
@@ -81,7 +89,8 @@ m = {
     },
     "engines": [
         {"name": "E1", "path": "/verif/harness/src/e1.rs", "serves_properties": ["C01", "C02", "C19"], "kind_free_text": "explicit-state search over (scripted transport x real Response), states re-reached by replay, keyed by Debug of the reader stack"},
-        {"name": "E2", "path": "/verif/harness/src/", "serves_properties": ["C03", "C04", "C05", "C06", "C07", "C15"], "kind_free_text": "bounded exhaustive input/configuration enumerators over the real code through the scripted transport (C05 in worker subprocesses)"},
+        {"name": "E2", "path": "/verif/harness/src/", "serves_properties": ["C03", "C04", "C05", "C06", "C07", "C11", "C15"], "kind_free_text": "bounded exhaustive input/configuration enumerators over the real code through the scripted transport (C05 in worker subprocesses)"},
+        {"name": "E5", "path": "/verif/harness/src/tlslab.rs", "serves_properties": ["C14"], "kind_free_text": "local TLS lab: real loopback listeners (TLS origin, http/https proxy terminating the inner TLS), committed test PKI, second build against rustls"},
         {"name": "E3", "path": "/verif/harness/src/redir.rs", "serves_properties": ["C09", "C10"], "kind_free_text": "BFS over scripted redirect worlds with a reference model"},
     ],
     "checks": checks,
